@@ -127,61 +127,64 @@ class Runner:
         t_new = self.t + (1 if has else 0)
         refresh = has and rm.is_refresh(t_new, self.eff["start"], self.eff["freq"])
         active = [i for i, (pi, bi, nf) in enumerate(self.blocks) if mask[pi]]
-        # ---------------- model
-        expect: str | None = None
-        new_counter = list(self.counter)
-        plan: list[str] = []
-        expect_failed_factors: list[str] = []
-        expect_unchanged: list[tuple[int, int, int]] = []
-        expect_refreshed: list[tuple[int, int, int, int]] = []  # (pi, bi, f, call index)
-        call = 0
+        # ---------------- model (evaluated after the step: a successfully computed root that overflows when cast to the block dtype
+        # counts as a non-finite result, which the harness can only know once the real routine has run)
+        def model(overflow: set) -> tuple:
+            expect: str | None = None
+            new_counter = list(self.counter)
+            plan: list[str] = []
+            failed: list[str] = []
+            unchanged: list[tuple[int, int, int]] = []
+            refreshed: list[tuple[int, int, int, int]] = []
+            call = 0
+            if refresh:
+                for i in active:
+                    pi, bi, nf = self.blocks[i]
+                    block_out = []
+                    stop = False
+                    for f in range(nf):
+                        o = outs[call] if call < len(outs) else "ok"
+                        if o == "ok" and call in overflow:
+                            o = "inf"
+                        plan.append(o)
+                        block_out.append(o)
+                        if o in ("nan", "inf"):
+                            expect = "pve"
+                            call += 1
+                            stop = True
+                            break
+                        if o == "raise":
+                            failed.append(self._factor_index(pi, bi, f))
+                            unchanged.append((pi, bi, f))
+                        else:
+                            refreshed.append((pi, bi, f, call))
+                        call += 1
+                    if stop:
+                        break
+                    if nf == 0:
+                        new_counter[i] = 0  # empty success tracker: all([]) is a success
+                        continue
+                    if all(o == "ok" for o in block_out):
+                        new_counter[i] = 0
+                    else:
+                        new_counter[i] += 1
+                        if new_counter[i] > self.tol:
+                            expect = "value"
+                            break
+            return expect, new_counter, plan, failed, unchanged, refreshed
+
         if refresh:
             self.stats["refreshes"] += 1
-            for i in active:
-                pi, bi, nf = self.blocks[i]
-                block_out = []
-                stop = False
-                for f in range(nf):
-                    o = outs[call] if call < len(outs) else "ok"
-                    plan.append(o)
-                    block_out.append(o)
-                    if o in ("nan", "inf"):
-                        expect = "pve"
-                        call += 1
-                        stop = True
-                        break
-                    if o == "raise":
-                        expect_failed_factors.append(self._factor_index(pi, bi, f))
-                        expect_unchanged.append((pi, bi, f))
-                    else:
-                        expect_refreshed.append((pi, bi, f, call))
-                    call += 1
-                if stop:
-                    break
-                if nf == 0:
-                    # a block without Kronecker factors has an empty success tracker: all([]) is a success
-                    new_counter[i] = 0
-                    continue
-                if all(o == "ok" for o in block_out):
-                    if new_counter[i] > 0:
-                        self.stats["resets"] += 1
-                    new_counter[i] = 0
-                else:
-                    new_counter[i] += 1
-                    if new_counter[i] > self.tol:
-                        expect = "value"
-                        break
-        if any(self.carried[i] and self.counter[i] > 0 for i in active) and refresh:
-            self.stats["carried"] += 1
         poisoned_active = any(self.poisoned[i] and self.blocks[i][2] > 0 for i in active)
         # ---------------- run
         real = getattr(self.pl, self.target)
-        state = {"i": 0, "results": {}}
+        state = {"i": 0, "results": {}, "overflow": set()}
+        pdt = gen.DT[self.cfg["pdtype"]]
 
         def fake(*a: Any, **k: Any) -> torch.Tensor:
             i = state["i"]
             state["i"] += 1
-            o = plan[i] if i < len(plan) else "ok"
+            o = outs[i] if (refresh and i < len(outs)) else "ok"
             if o == "raise":
                 raise RuntimeError("injected failure")
             r = real(*a, **k)
@@ -190,6 +193,8 @@ class Runner:
                 if r.numel():
                     r.view(-1)[0] = float("nan") if o == "nan" else float("inf")
             state["results"][i] = r.detach().clone()
+            if o == "ok" and not self.soap and not bool(torch.isfinite(r.detach().to(pdt)).all()):
+                state["overflow"].add(i)
             return r
 
         before_params = [p.detach().clone() for p in self.params]
@@ -202,6 +207,7 @@ class Runner:
         lg.disabled = False
         got: str | None = None
         err = ""
+        emsg = ""
         try:
             with mock.patch.object(self.pl, self.target, fake):
                 self.opt.step()
@@ -209,12 +215,20 @@ class Runner:
             name = type(e).__name__
             got = "pve" if name == "PreconditionerValueError" else ("value" if type(e) is ValueError else f"other:{name}")
             err = "".join(traceback.format_exception_only(type(e), e))[-400:]
+            emsg = str(e)[:300]
             if got.startswith("other"):
                 err = traceback.format_exc()[-2500:]
         finally:
             lg.removeHandler(cap)
             lg.setLevel(old_level)
             lg.disabled = old_disabled
+        expect, new_counter, plan, expect_failed_factors, expect_unchanged, expect_refreshed = model(state["overflow"])
+        if any(self.carried[i] and self.counter[i] > 0 for i in active) and refresh:
+            self.stats["carried"] += 1
+        if any(c == 0 and o > 0 for c, o in zip(new_counter, self.counter)):
+            self.stats["resets"] += 1
+        if state["overflow"]:
+            self.out.classes.append("root_overflows_block_dtype")
         self.stats["injected"] += sum(1 for o in plan[: state["i"]] if o != "ok")
         where = f"step t={t_new} refresh={refresh} mask={mask} plan={plan} counters={self.counter} tol={self.tol}"
         # ---------------- oracle
@@ -223,6 +237,12 @@ class Runner:
             # parameters of the group must be unmodified by that step; nothing is claimed for non-refresh steps.
             if refresh and poisoned_active and expect is None:
                 expect = "pve"
+        if got == "pve" and expect != "pve" and "in factor matrix" in emsg and self._factor_overflow_expected(before_params, grads):
+            # half-precision parameters left the finite range in an earlier (non-raising) step, or the Gram matrix itself overflows:
+            # the documented response; outside the fault model of this check
+            self.out.classes.append("overflow_domain")
+            self.dead = True
+            return fails
         if got != expect:
             fails.append(Failure("C13.model", f"raise behaviour differs from the failure-counter model (expected {expect}, got {got})",
                                  f"{where}\n{err}", got, expect))
@@ -265,6 +285,19 @@ class Runner:
                 self.carried[i] = False
         self.t = t_new
         return fails
+
+    def _factor_overflow_expected(self, before_params: list, grads: list) -> bool:
+        fmax = 1e-3 * float(torch.finfo(gen.DT[self.cfg["fdtype"]]).max)
+        pmax = float(torch.finfo(gen.DT[self.cfg["pdtype"]]).max)
+        for w, g in zip(before_params, grads):
+            if g is None:
+                continue
+            g = g.double()
+            if self.cfg.get("wd", 0.0) and not self.cfg.get("decoupled", True):
+                g = g + self.cfg["wd"] * w.double()
+            if not bool(torch.isfinite(g).all()) or float(g.abs().max()) > pmax or float((g * g).sum()) > fmax:
+                return True
+        return False
 
     def finish(self) -> Outcome:
         out = self.out
@@ -319,8 +352,8 @@ def _config_strategy(nan_stream: bool = False):
             "lr": 0.0078125, "beta1": beta1, "beta2": draw(st.sampled_from([1.0, 0.9])), "beta3": -1.0, "epsilon": draw(st.sampled_from([1e-4, 1e-2, 1e-12])),
             "momentum": momentum, "dampening": 0.0, "nesterov": False, "wd": draw(st.sampled_from([0.0, 0.01])), "decoupled": draw(st.booleans()),
             "bias": draw(st.booleans()), "graft": draw(st.sampled_from([None, {"type": "sgd"}, {"type": "adam", "eps": 1e-8, "beta2": 0.99}])),
-            "mpd": mpd, "merge": draw(st.booleans()), "freq": freq, "start": draw(st.sampled_from([-1, freq, freq + 1])), "override": 0,
-            "precond": pc, "pdtype": draw(st.sampled_from(["f32", "f32", "f64"])), "fdtype": draw(st.sampled_from(["f32", "f32", "f64"])), "gscale": 1.0,
+            "mpd": mpd, "merge": draw(st.booleans()), "freq": freq, "start": draw(st.sampled_from([-1, freq, freq + 1])), "override": (draw(st.sampled_from([0, 0, 1, 2])) if not ignored else 0),
+            "precond": pc, "pdtype": draw(st.sampled_from(["f32", "f32", "f64", "f16", "bf16"])), "fdtype": draw(st.sampled_from(["f32", "f32", "f64"])), "gscale": 1.0,
         }
         n = draw(st.integers(2, 4))
         shapes = [draw(st.sampled_from([[3, 2], [2, 2], [4], [2, 3, 2], [5, 3], [2], [1, 3], [6, 2]])) for _ in range(n)]
@@ -333,6 +366,27 @@ def _config_strategy(nan_stream: bool = False):
 
 def config_strategy():
     return _config_strategy(False)
+
+
+def config_strategy_cast():
+    """Half-precision parameters with inverse roots that exceed the float16 range (rank-deficient factor, epsilon 1e-12, root override 1 or 2):
+    the computed root is finite in the factor dtype but not in the block dtype, so the refresh must raise PreconditionerValueError."""
+    from hypothesis import strategies as st
+
+    @st.composite
+    def config(draw: Any) -> dict:
+        c = draw(_config_strategy(False))
+        cfg = c["cfg"]
+        cfg["pdtype"] = draw(st.sampled_from(["f16", "f16", "bf16"]))
+        cfg["precond"] = {"kind": "shampoo", "solver": draw(st.sampled_from(["eigen", "eigen_stab"])), "mult": 1.0, "ignored": [], "tol": cfg["precond"]["tol"]}
+        cfg["override"] = draw(st.sampled_from([1, 2, 2, 0]))
+        cfg["epsilon"] = draw(st.sampled_from([1e-12, 1e-12, 1e-6]))
+        cfg["graft"] = draw(st.sampled_from([None, {"type": "adam", "eps": 1e-3, "beta2": 0.99}]))
+        cfg["wd"] = 0.0
+        c["shapes"] = [draw(st.sampled_from([[3, 2], [4, 2], [5, 3], [2, 3, 2]])) for _ in range(draw(st.integers(2, 3)))]
+        return c
+
+    return config()
 
 
 def config_strategy_nan():
@@ -385,6 +439,8 @@ def step_strategy(runner: Runner):
 STREAMS = {
     "faults": Stream("faults", machine=(config_strategy, step_strategy, Runner), quick=2400, thorough=60000, shards_quick=16, shards_thorough=16,
                      max_steps=14, max_steps_thorough=30),
+    "cast_overflow": Stream("cast_overflow", machine=(config_strategy_cast, step_strategy, Runner), quick=400, thorough=10000, shards_quick=8, shards_thorough=16,
+                            max_steps=8, max_steps_thorough=16),
     "nan_gradients": Stream("nan_gradients", machine=(config_strategy_nan, step_strategy, Runner), quick=600, thorough=15000, shards_quick=8, shards_thorough=16,
                             max_steps=10, max_steps_thorough=20),
 }
